@@ -184,3 +184,60 @@ fn k_sha1_process_equals_fips_z3() {
     assert!(st.state == want, "SHA-1 compression function");
     kani::cover!(true, "reachable");
 }
+
+/// SHA-1 straight from FIPS 180-4 (one block at a time, 80 scalar rounds), independent of the 4-lane code under contract
+fn nsh_fips_sha1(data: &[u8]) -> [u8; 20] {
+    let mut h: [u32; 5] = [0x67452301, 0xEFCDAB89, 0x98BADCFE, 0x10325476, 0xC3D2E1F0];
+    let mut msg = data.to_vec();
+    msg.push(0x80);
+    while msg.len() % 64 != 56 { msg.push(0); }
+    msg.extend_from_slice(&((data.len() as u64) * 8).to_be_bytes());
+    for block in msg.chunks(64) {
+        let mut w = [0u32; 80];
+        for t in 0..16 { w[t] = u32::from_be_bytes([block[4 * t], block[4 * t + 1], block[4 * t + 2], block[4 * t + 3]]); }
+        for t in 16..80 { w[t] = (w[t - 3] ^ w[t - 8] ^ w[t - 14] ^ w[t - 16]).rotate_left(1); }
+        let (mut a, mut b, mut c, mut d, mut e) = (h[0], h[1], h[2], h[3], h[4]);
+        for t in 0..80 {
+            let (f, k) = match t / 20 { 0 => ((b & c) | (!b & d), 0x5A827999u32), 1 => (b ^ c ^ d, 0x6ED9EBA1), 2 => ((b & c) | (b & d) | (c & d), 0x8F1BBCDC), _ => (b ^ c ^ d, 0xCA62C1D6) };
+            let tmp = a.rotate_left(5).wrapping_add(f).wrapping_add(e).wrapping_add(k).wrapping_add(w[t]);
+            e = d; d = c; c = b.rotate_left(30); b = a; a = tmp;
+        }
+        h[0] = h[0].wrapping_add(a); h[1] = h[1].wrapping_add(b); h[2] = h[2].wrapping_add(c); h[3] = h[3].wrapping_add(d); h[4] = h[4].wrapping_add(e);
+    }
+    let mut out = [0u8; 20];
+    for i in 0..5 { out[4 * i..4 * i + 4].copy_from_slice(&h[i].to_be_bytes()); }
+    out
+}
+
+//@unit props=C10,C12 label=B tier=quick native=1 fn=sha1::Sha1::{from,update,digest},sha1::Sha1State::process bound="by execution: every message length 0..=300 and 18 lengths around 4 KiB, 64 KiB and 1 MiB (every padding boundary 55/56/63/64 mod 64), two content patterns, fed in one piece and in pieces of 1, 7, 63, 64 and 65 bytes; the three FIPS 180 test vectors"
+//@desc the digest equals SHA-1 as FIPS 180-4 defines it (this is the bounded stand-in for the composition of the 20 four-round groups inside Sha1State::process, whose building blocks are proved by Kani) and does not depend on how the message is split across update calls
+#[test]
+fn native_sha1_vs_fips() {
+    let mut cases = 0u64;
+    let hex = |d: [u8; 20]| d.iter().map(|b| format!("{b:02x}")).collect::<String>();
+    assert_eq!(hex(Sha1::from(b"abc").digest().bytes()), "a9993e364706816aba3e25717850c26c9cd0d89d");
+    assert_eq!(hex(Sha1::from(b"").digest().bytes()), "da39a3ee5e6b4b0d3255bfef95601890afd80709");
+    assert_eq!(hex(Sha1::from(b"abcdbcdecdefdefgefghfghighijhijkijkljklmklmnlmnomnopnopq").digest().bytes()), "84983e441c3bd26ebaae4aa1f95129e5e54670f1");
+    assert_eq!(hex(nsh_fips_sha1(b"abc")), "a9993e364706816aba3e25717850c26c9cd0d89d", "the reference implementation itself");
+    let mut lens: Vec<usize> = (0..=300).collect();
+    for base in [4096usize, 65536, 1 << 20] { for d in [-9i64, -8, -1, 0, 1, 55] { lens.push((base as i64 + d) as usize); } }
+    for (li, n) in lens.iter().enumerate() {
+        for pat in 0..2u32 {
+            let mut x = (li as u32).wrapping_mul(2654435761).wrapping_add(pat);
+            let data: Vec<u8> = (0..*n).map(|i| { x = x.wrapping_mul(1664525).wrapping_add(1013904223); if pat == 0 { (x >> 24) as u8 } else { (i % 251) as u8 } }).collect();
+            let want = nsh_fips_sha1(&data);
+            assert!(Sha1::from(&data).digest().bytes() == want, "digest of a {n}-byte message (pattern {pat})");
+            if *n <= 300 || pat == 0 {
+                for piece in [1usize, 7, 63, 64, 65] {
+                    if *n > 5000 && piece < 63 { continue; }
+                    let mut s = Sha1::new();
+                    for c in data.chunks(piece) { s.update(c); }
+                    assert!(s.digest().bytes() == want, "digest of a {n}-byte message fed in pieces of {piece}");
+                    cases += 1;
+                }
+            }
+            cases += 1;
+        }
+    }
+    println!("NATIVE native_sha1_vs_fips cases={cases}");
+}
